@@ -235,8 +235,15 @@ def parallel_map(fn, items, procs=None):
     if procs <= 1 or len(items) <= 1:
         return [fn(x) for x in items]
     ctx = multiprocessing.get_context('fork')
-    with ctx.Pool(min(procs, len(items))) as pool:
-        return pool.map(fn, items)
+    # a worker that is killed from outside (out of memory ...) must end the check as a machinery failure, not hang it:
+    # concurrent.futures notices a dead worker (BrokenProcessPool), multiprocessing.Pool.map would wait for ever
+    import concurrent.futures
+    from concurrent.futures.process import BrokenProcessPool
+    try:
+        with concurrent.futures.ProcessPoolExecutor(max_workers=min(procs, len(items)), mp_context=ctx) as ex:
+            return list(ex.map(fn, items))
+    except BrokenProcessPool as e:
+        raise MachineryError('a worker process of %s died (killed from outside, e.g. out of memory): %s' % (getattr(fn, '__name__', fn), e))
 
 
 # --------------------------------------------------------------------------- findings / evidence
